@@ -273,6 +273,20 @@ def quantisation(rep, prog, fn):
         check_quant(rep, prog, fn, n, "C20.quantisation", None)
 
 
+def _positive_constant(prog, name):
+    """name designates a static / global constant whose initialiser is machine epsilon or a positive literal"""
+    base = re.sub(r"<[^<>]*(<[^<>]*>[^<>]*)*>", "", name).split("::")[-1].split(".")[-1]
+    for k, f in prog.functions.items():
+        if f.get("pseudo") and k.startswith("<init> ") and k.split("::")[-1].split(" ")[-1] == base and isinstance(f.get("body"), dict):
+            txt = render(f["body"]["c"][0]) if f["body"].get("c") else ""
+            if "epsilon()" in txt and not txt.strip().startswith("-"):
+                return True
+            i = strip(f["body"]["c"][0]) if f["body"].get("c") else {}
+            if i.get("k") in ("FloatingLiteral", "IntegerLiteral") and float(i.get("v", "0")) > 0:
+                return True
+    return False
+
+
 def update_dimensions(rep, prog, fn):
     ev = S.SymEval(prog, fn)
     try:
@@ -310,8 +324,8 @@ def update_dimensions(rep, prog, fn):
             msgs.append("nb_voxels_%s_ = %s, expected %s" % (a, clean(nbs), form))
         d_mn = sp.simplify(sp.sympify(mn) - lo)
         const_pad = d_mn.is_number and d_mn <= 0
-        if not const_pad and (-d_mn).is_Symbol and "epsilon" in (-d_mn).name and (-d_mn) in nbs_pad_syms(nbs):
-            const_pad = True    # min - delta with the same machine-epsilon atom that pads the count
+        if not const_pad and (-d_mn).is_Symbol and ((-d_mn) in nbs_pad_syms(nbs) or any((-d_mn).name in s_.name for s_ in nbs.free_symbols)) and ("epsilon" in (-d_mn).name or _positive_constant(prog, (-d_mn).name)):
+            const_pad = True    # min - delta with the same machine-epsilon atom that pads the count (possibly through a named constant)
         if not const_pad:
             ok = False
             msgs.append("min_%s_ = %s, expected min_%s - delta" % (a, clean(mn), a))
@@ -556,9 +570,10 @@ def index_within_count(rep, prog):
             if why is None:
                 # (b) coordinate of a mesh node looked up by a contact model: nodes lie aabb_padding_ > 0 inside the upper faces of
                 # the grid (grid bounds = node extrema + padding, C06.padding-dominates; cut-offs <= 0 are rejected by parameter_reader)
-                coord_txt = render(n)
+                from ..model import expand_text as _et
+                coord_txt = _et(fn, n)      # through (reference) locals that only name the position
                 cls = fn.get("cls") or ""
-                if re.search(r"\.pos\(\)\.d[xyz]\(\)", coord_txt) and (cls.startswith("contact_") and prefix == "grid_."):
+                if re.search(r"\.pos\(\)\)?\.d[xyz]\(\)", coord_txt) and (cls.startswith("contact_") and prefix == "grid_."):
                     why = "position of a mesh node in a contact look-up: strictly inside the upper faces of the grid by the positive box padding (C06.padding-dominates)"
             if why:
                 rep.ok(rule, prog, fn, n, why)
